@@ -27,6 +27,27 @@ REPAIRED = ["print(\"he\n wold\")\n", "def a := 2\nprint(\"x\n{a}y\")\n", "def b
             "def b := True\ndef d := {1 => if b then 1 else 2}\n", "def b := True\ndef xs := [1, 2]\ndef r := {(if b then 1 else 2) => (if b then 5 else 6) | y in xs}\n"]
 
 
+def signature_grid():
+    """parameter lists with every pattern of defaulted / plain / variadic parameters (1-4 parameters), for functions, methods
+    and class arguments: whatever the checker accepts must be a valid Python signature"""
+    import itertools
+    out = []
+    for n in range(1, 5):
+        for pat in itertools.product("pd", repeat=n):
+            ps = ", ".join("p%d: Int%s" % (i, " := %d" % i if k == "d" else "") for i, k in enumerate(pat))
+            call = ", ".join(str(i) for i in range(n))
+            out.append("def f(%s) -> Int => p0\nprint(f(%s))\n" % (ps, call))
+            out.append("class K\n    def m(self, %s) -> Int => p0\nprint(K().m(%s))\n" % (ps, call))
+            out.append("class K\n    def m(fin self, %s) -> Int => p0\nprint(K().m(%s))\n" % (ps, call))
+            out.append("class K(%s)\n    def z: Int := 0\nprint(K(%s).z)\n" % (", ".join("def " + x for x in ps.split(", ")), call))
+        for pos in range(n):
+            ps = ", ".join(("vararg p%d: Int" % i) if i == pos else "p%d: Int" % i for i in range(n))
+            out.append("def f(%s) -> Int => 1\nprint(f(%s))\n" % (ps, ", ".join(str(i) for i in range(n))))
+            ps2 = ", ".join(("vararg p%d: Int" % i) if i == pos else "p%d: Int := 1" % i for i in range(n))
+            out.append("def f(%s) -> Int => 1\nprint(f(%s))\n" % (ps2, ", ".join(str(i) for i in range(n))))
+    return out
+
+
 def context_grid(rng, thorough):
     """every expression shape in every syntactic context that takes an expression"""
     out = []
@@ -61,7 +82,7 @@ def run(chk):
         for _ in range(rng.randint(1, 3)):
             t = gen_lex.mutate(rng, t)
         texts.append(t)
-    grid = context_grid(rng, thorough)
+    grid = context_grid(rng, thorough) + signature_grid()
     texts += grid
     texts += [f["input"] for f in chk.findings if f.get("input")]
     texts += REPAIRED
@@ -87,7 +108,7 @@ def run(chk):
     chk.cov["oracle"] = {"spec": "compile(emitted, 'exec') succeeds for every emitted module, both annotate settings", "inputs": len(texts), "emitted_modules": n_acc, "expression_in_context_programs": len(grid)}
     chk.cov["evaluations"] = len(texts)
     chk.cov["distinct_nontrivial"] = len(distinct)
-    chk.cov["rule"] = "distinct inputs accepted by the pipeline: repository samples, generated programs, token-level mutants of both, and the grid expression shape x syntactic context (comprehension conditions/elements, collections, calls, indexes, ranges, f-strings, match/handle arms, returns, defaults, operands)"
+    chk.cov["rule"] = "distinct inputs accepted by the pipeline: repository samples, generated programs, token-level mutants of both, and the grid expression shape x syntactic context (comprehension conditions/elements, collections, calls, indexes, ranges, f-strings, match/handle arms, returns, defaults, operands) and the grid of parameter lists (every pattern of defaulted / plain / variadic parameters for functions, methods, class arguments)"
 
 
 def layout(chk):
